@@ -187,6 +187,9 @@ enum SinkMode {
     Work,
     /// only find the case with the given index
     Find(u64),
+    /// re-run, in this process, every case the worker of one shard ran up to and including `upto`, keeping the
+    /// violations of `upto` only (replay of a violation that needs the history of its process to show)
+    History { shard: u64, nshards: u64, seed: u64, upto: u64 },
 }
 
 pub struct Sink<'a> {
@@ -195,6 +198,8 @@ pub struct Sink<'a> {
     idx: u64,
     found: Option<Value>,
     worker: Option<WorkerState<'a>>,
+    history_prop: Option<&'a dyn Prop>,
+    history_result: Option<Vec<Violation>>,
 }
 
 impl<'a> Sink<'a> {
@@ -206,6 +211,20 @@ impl<'a> Sink<'a> {
             SinkMode::Find(want) => {
                 if idx == want {
                     self.found = Some(make());
+                }
+            }
+            SinkMode::History { shard, nshards, seed, upto } => {
+                if idx > upto || idx.wrapping_add(seed) % nshards != shard {
+                    return;
+                }
+                let case = make();
+                let prop = self.history_prop.expect("history mode has a property");
+                let res = panics::catch(|| prop.run(&case));
+                if idx == upto {
+                    self.history_result = Some(match res {
+                        Ok(o) => o.violations,
+                        Err(p) => vec![Violation::from_panic(&p)],
+                    });
                 }
             }
             SinkMode::Work => {
@@ -559,6 +578,8 @@ pub fn worker_main(prop: &dyn Prop, tier: Tier, seed: u64, a: WorkerArgs) -> i32
         idx: 0,
         found: None,
         worker: Some(state),
+        history_prop: None,
+        history_result: None,
     };
     prop.enumerate(tier, &mut sink);
     let total = sink.idx;
@@ -580,6 +601,8 @@ pub fn find_case(prop: &dyn Prop, tier: Tier, idx: u64) -> Option<Value> {
         idx: 0,
         found: None,
         worker: None,
+        history_prop: None,
+        history_result: None,
     };
     prop.enumerate(tier, &mut sink);
     sink.found
@@ -858,6 +881,34 @@ pub fn replay_file(prop: &dyn Prop, path: &str) -> Result<Vec<Violation>, String
     }
 }
 
+/// Re-runs the cases that preceded the recorded one in its worker process (same shard, same seed, same tier) and
+/// then the recorded case itself: a violation that depends on what the process did before (state kept outside the
+/// instance under test) shows again, one that was chance does not.
+pub fn replay_with_history(prop: &dyn Prop, path: &str) -> Result<Vec<Violation>, String> {
+    let text = std::fs::read_to_string(path).map_err(|e| format!("cannot read {path}: {e}"))?;
+    let v: Value = serde_json::from_str(&text).map_err(|e| format!("bad replay file: {e}"))?;
+    let h = v.get("history").ok_or("replay file records no process history")?;
+    let num = |k: &str| h.get(k).and_then(|x| x.as_u64()).ok_or(format!("history.{k} missing"));
+    let tier = match v.get("tier").and_then(|t| t.as_str()) {
+        Some("thorough") => Tier::Thorough,
+        _ => Tier::Quick,
+    };
+    let mut sink = Sink {
+        mode: SinkMode::History { shard: num("shard")?, nshards: num("nshards")?, seed: num("seed")?, upto: num("upto")? },
+        tier,
+        idx: 0,
+        found: None,
+        worker: None,
+        history_prop: Some(prop),
+        history_result: None,
+    };
+    prop.enumerate(tier, &mut sink);
+    if std::env::var("VERIF_DEBUG").is_ok() {
+        eprintln!("history replay: enumeration reached index {}, result {:?}", sink.idx, sink.history_result.as_ref().map(|v| v.iter().map(|x| x.signature.clone()).collect::<Vec<_>>()));
+    }
+    sink.history_result.ok_or_else(|| "the recorded case index was not reached by the enumeration".to_string())
+}
+
 pub fn replay_main(prop: &dyn Prop, path: &str) -> i32 {
     // a replayed case that hangs is reported as still violating
     {
@@ -898,9 +949,53 @@ pub fn replay_main(prop: &dyn Prop, path: &str) -> i32 {
                 println!("VIOLATION property={} replay={}", prop.id(), path);
                 1
             } else {
-                println!("replay: recorded violation not reproduced");
-                0
+                // perhaps it needs what the process did before: re-run the worker's cases up to the recorded one, in a
+                // fresh process (this one has already run the case once)
+                let out = std::env::current_exe().ok().and_then(|exe| {
+                    Command::new(exe).arg(prop.id()).arg("--replay-history").arg(path).stdin(Stdio::null()).stderr(Stdio::inherit()).output().ok()
+                });
+                match out {
+                    Some(out) if out.status.code() == Some(1) => {
+                        print!("{}", String::from_utf8_lossy(&out.stdout));
+                        1
+                    }
+                    _ => {
+                        println!("replay: recorded violation not reproduced");
+                        0
+                    }
+                }
             }
+        }
+    }
+}
+
+/// `--replay-history FILE`: exit 1 iff the recorded violation shows after the cases that preceded it in its worker
+pub fn replay_history_main(prop: &dyn Prop, path: &str) -> i32 {
+    std::thread::spawn(|| {
+        std::thread::sleep(Duration::from_secs(1800));
+        println!("replay: history replay exceeded 30 minutes");
+        unsafe { libc::_exit(2) };
+    });
+    unsafe {
+        let lim = libc::rlimit { rlim_cur: WORKER_AS_LIMIT, rlim_max: WORKER_AS_LIMIT };
+        libc::setrlimit(libc::RLIMIT_AS, &lim);
+    }
+    let expected = std::fs::read_to_string(path)
+        .ok()
+        .and_then(|t| serde_json::from_str::<Value>(&t).ok())
+        .and_then(|v| v.get("signature").and_then(|s| s.as_str()).map(|s| s.to_string()));
+    match replay_with_history(prop, path) {
+        Ok(vs) if vs.iter().any(|v| Some(&v.signature) == expected.as_ref()) => {
+            for v in vs.iter().filter(|v| Some(&v.signature) == expected.as_ref()) {
+                println!("REPLAY-VIOLATION signature={} (after the preceding cases of its worker process) :: {}", v.signature, v.what);
+            }
+            println!("VIOLATION property={} replay={}", prop.id(), path);
+            1
+        }
+        Ok(_) => 0,
+        Err(e) => {
+            println!("replay: history not replayed: {e}");
+            0
         }
     }
 }
@@ -1006,6 +1101,8 @@ pub fn coordinator_main(prop: &dyn Prop, tier: Tier, seed: u64) -> i32 {
             "case_index": sa.first_idx,
             "tier": tier.name(),
             "case": sa.case,
+            // the worker process that ran the case, for violations that only show after the cases before it
+            "history": {"shard": sa.first_idx.wrapping_add(seed) % nshards, "nshards": nshards, "seed": seed, "upto": sa.first_idx},
         });
         let _ = std::fs::write(&path, serde_json::to_string_pretty(&doc).unwrap());
 
